@@ -194,13 +194,12 @@ def builtin_corpus():
         L.append({'kind': 'strip', 'text': t})
     def cli(files, sources, stdin='', outfile='out.py'):
         L.append({'kind': 'cli', 'files': files, 'sources': sources, 'stdin': ['text', stdin] if stdin is not None else ['bad'],
-                  'outfile': outfile, 'modesalt': len(L) % 2, 'combos': 'all' if len(L) < 28 else ['even', 'odd'][len(L) % 2]})
+                  'outfile': outfile, 'modesalt': len(L) % 2, 'combos': 'all' if len(L) < 27 else ['even', 'odd'][len(L) % 2]})
     good = 'foo(a).\nbar(X) :- foo(X).\n'
     nl = "foo('a\nimport os').\nbar(X) :- 'x\rimport sys'(X), foo('u\u2028v', 'f\x0cg').\n"
     cli([['a.pl', good]], ['a.pl'])
-    cli([['a.pl', nl]], ['a.pl'])                                     # D19: debug text with line breaks
-    cli([], ['-'], stdin="héllo('wörld', '日本').\n")                   # D19: stdin is UTF-8
-    cli([['a.pl', 'foo(a) :- .\n']], ['a.pl'])                        # syntax error: file:line:col
+    # (the D19 inputs - debug text with line breaks, UTF-8 on stdin, a syntax error, a line break in the file
+    #  name, U+0000 in a debug message - are in corpus/C19/d19.json)
     cli([['a.pl', good], ['b.pl', 'a(X) :- b(X),, c(X).\n'], ['c c.pl', good]], ['a.pl', 'b.pl', 'c c.pl'])
     cli([['a.pl', 'true.\n'], ['b.pl', good]], ['a.pl', 'b.pl'])      # not a CompilerError
     cli([['a.pl', 'p :- q(foo/2).\n']], ['a.pl'])
@@ -211,11 +210,9 @@ def builtin_corpus():
     cli([['a.pl', None]], ['a.pl'])                                   # not UTF-8
     cli([], ['-', '-'], stdin=good)
     cli([], [])
-    cli([['x\ny.pl', good]], ['x\ny.pl'])                             # a line break in the file name (--debug-filename)
     cli([['x\ny.pl', 'foo(.\n']], ['x\ny.pl'])
     cli([['a.pl', good], ['b.pl', nl]], ['a.pl', 'b.pl'], outfile='a.pl')   # output file = first source
     cli([['a.pl', ''], ['b.pl', '% c\n']], ['a.pl', 'b.pl', 'a.pl'])
-    cli([['a.pl', "p('nul\x00byte').\n"]], ['a.pl'])
     return L
 
 # ------------------------------------------------------------------ implementation side
